@@ -68,7 +68,7 @@ theorem stageLoop_spec (d : StageCfg) (start : Option Int) (now : Int) :
 
 /-- the default section as the loop sees it (concurrency falls back to the limit, jitter to 0) -/
 def effDefault (c : Config) (conc : Int) : StageCfg :=
-  { c.default_ with concurrency := inh c.default_.concurrency (some conc), jitter := inh c.default_.jitter (some ()) }
+  { c.default_ with concurrency := inh c.default_.concurrency (some conc), jitter := inh c.default_.jitter (some 0) }
 
 theorem parsePlan_ok (c : Config) (now : Int) (p : PlanOut) (h : parsePlan c now = .ok p) :
     ∃ conc, c.limits.concurrency = some conc ∧ 1 ≤ conc ∧ p.concurrency = conc ∧
@@ -143,6 +143,49 @@ theorem C14_plan_runnable (c : Config) (now : Int) (p : PlanOut) (h : parsePlan 
   rw [e2] at hr
   exact e5 r (by simpa using hr)
 
+/-- C15/C13 (defaults, jitter): a rate-driven stage is built with the jitter it spells — also an explicit 0 — and
+with the default section's only when it omits the field; the default section's own default is 0. -/
+theorem C15_stage_jitter (s d : StageCfg) (mode : Bytes) (dur : Int) (r : RStage)
+    (h : parseStage s d mode dur = .ok r) (hm : mode ≠ b_users) :
+    r.jitter = (inh s.jitter d.jitter).getD 0 := by
+  unfold parseStage at h
+  simp only at h
+  split at h
+  · obtain ⟨_, _, h⟩ := req_ok _ _ _ h
+    obtain ⟨_, _, h⟩ := req_ok _ _ _ h
+    obtain ⟨_, _, h⟩ := bind_ok _ _ _ h
+    injection h with h; subst h; rfl
+  · split at h
+    · obtain ⟨_, _, h⟩ := req_ok _ _ _ h
+      obtain ⟨_, _, h⟩ := req_ok _ _ _ h
+      obtain ⟨_, _, h⟩ := req_ok _ _ _ h
+      obtain ⟨_, _, h⟩ := bind_ok _ _ _ h
+      injection h with h; subst h; rfl
+    · split at h
+      · obtain ⟨_, _, h⟩ := req_ok _ _ _ h
+        obtain ⟨_, _, h⟩ := req_ok _ _ _ h
+        obtain ⟨_, _, h⟩ := req_ok _ _ _ h
+        obtain ⟨_, _, h⟩ := bind_ok _ _ _ h
+        injection h with h; subst h; rfl
+      · split at h
+        · obtain ⟨_, _, h⟩ := req_ok _ _ _ h
+          obtain ⟨_, _, h⟩ := req_ok _ _ _ h
+          obtain ⟨_, _, h⟩ := req_ok _ _ _ h
+          obtain ⟨_, _, h⟩ := req_ok _ _ _ h
+          obtain ⟨_, _, h⟩ := req_ok _ _ _ h
+          obtain ⟨_, _, h⟩ := req_ok _ _ _ h
+          obtain ⟨_, _, h⟩ := req_ok _ _ _ h
+          obtain ⟨_, _, h⟩ := bind_ok _ _ _ h
+          injection h with h; subst h; rfl
+        · first
+            | cases h
+            | (split at h
+               · rename_i hu; exact absurd hu hm
+               · cases h)
+
+theorem C15_explicit_zero_jitter_kept (d : StageCfg) (s : StageCfg) (h : s.jitter = some 0) :
+    (inh s.jitter d.jitter).getD 0 = 0 := by simp [inh, h]
+
 -- non-vacuity: a users stage and an inherited one, restarted after the first has finished
 example : (parsePlan {
       scenario := some "s",
@@ -150,7 +193,7 @@ example : (parsePlan {
       default_ := { mode := some b_users, duration := some 7 },
       stageStart := some 0,
       stages := [{ duration := some 5, concurrency := some 3 }, { parameters := some [("k", "v")] }] } 6)
-    = .ok { scenario := "s", stages := [⟨7, 0, 2, [("k", "v")]⟩], total := 12, maxDuration := 10, concurrency := 2,
+    = .ok { scenario := "s", stages := [{ duration := 7, interval := 0, users := 2, params := [("k", "v")] }], total := 12, maxDuration := 10, concurrency := 2,
             maxIterations := 0, maxFailures := 0, maxFailuresRate := 0, ignoreDropped := true } := by
   decide
 
